@@ -4,7 +4,8 @@
     * `affine_mean_cov_scaled` — for ANY random vector `V` with mean `0` and second moments `κ·δ_ij`,
       `X = μ + L V` has mean `μ` and covariance `κ·L Lᵀ`;
     * `mvtMap`, `mvt_sample_eq_mvtMap` — the deterministic part of the sampler: what it does with the chi-squared
-      variate `c` and the vector `z` of normal draws;
+      variate `c` and the vector `z` of normal draws (over ℝ no `freedom` is infinite, so the `is_infinite()` branch of
+      864abd5 — weight `1.0`, no chi-squared draw — is never taken here; see `mvt_sample_of_inf*`);
     * `mvt_variance_toMatrix` — `variance()` of a constructed object is `(ν/(ν−2))·scale` (for `ν > 2`);
     * `mvt_new_sample_mean_cov` — on a constructed `MultivariateStudent(location, scale, ν)`, `ν > 2`: feed `mvtMap` with
       ANY random pair `(C, Z)` for which `V = √(ν/C)·Z` has mean `0` and second moments `(ν/(ν−2))·δ_ij` (true for
@@ -15,7 +16,8 @@ import Statrs.Props.C06.VectorSamplersB
 set_option linter.unusedVariables false
 set_option linter.unusedSectionVars false
 namespace Statrs.Props.C06
-open Statrs Statrs.Gen Statrs.Model Statrs.Spec Statrs.Lemmas.Multivariate Statrs.Lemmas.Sampling
+open Statrs Statrs.Gen Statrs.Model Statrs.Lemmas.Multivariate Statrs.Lemmas.Sampling
+open Statrs.Spec hiding Fin  -- `Statrs.Spec.Fin` ("finite float", Spec/FloatLaws.lean) would shadow `_root_.Fin`
 open MeasureTheory ProbabilityTheory Matrix
 
 section expectation
@@ -79,7 +81,7 @@ theorem mvt_sample_eq_mvtMap (d : MultivariateStudent ℝ) (hν : 0 < d.f_freedo
   intro g zs
   have hnew := chiSquared_new_real d.f_freedom
   rw [if_neg (not_le.mpr hν)] at hnew
-  have := mvt_sample_of_ok d _ hnew rng
+  have := mvt_sample_of_ok d rfl _ hnew rng
   simp only [rfun_sqrt] at this
   rw [show (2.0 : ℝ) = 2 by norm_num, show (0.5 : ℝ) = 1 / 2 by norm_num] at this
   exact this
